@@ -100,6 +100,7 @@ type Frame struct {
 
 type Exec struct {
 	curInst []types.Type // type arguments of the generic callee whose contract is being applied
+	addrCells map[*ast.UnaryExpr]Term // &x.fld arguments of the call being executed -> their cell
 	assignLHS string
 	specDefs  map[string]*specDef
 	sliceOrig map[string]*sliceOrigin
